@@ -45,6 +45,10 @@ PROPS = {
                     "full walk (with timestamps) compared with the walk before; device raises on any write; bytes compared after close"},
     "C11": {"suites": ["marks"],
             "rule": "sessions mount+history+close with the exact ordered write log; image rebuilt at every prefix; FAT12/16/32 x 1..3 FATs; empty and shuffled histories"},
+    "C13": {"suites": ["hostile", "volume"],
+            "rule": "hostile: ~70 structure-aware mutation kinds (chains: cycle/cross-link/out-of-range/into-free/bad; first clusters; directory loops; "
+                    "long-name damage; 20 boot-sector field mutations; truncated devices; random flips) x FAT12/16/32 base images; mount (lazy) + 36 lookups/"
+                    "listings + reads per mutant under a call-event work counter and an alarm; volume: chain follower on random garbage tables"},
     "C15": {"suites": ["names"],
             "rule": "legal names: every length (quick: all 13-boundaries +-1 and 1..12, 127..129, 254, 255; thorough: 1..255), spaces, dots, case mixes, "
                     "non-OEM and non-BMP characters, alias-collision families; x code pages x preserve_case; live and after remount"},
@@ -115,6 +119,12 @@ MANIFEST_TEXT = {
                     "Real sessions: exact write log, image rebuilt at every prefix, independent mark test.",
             "note": _NOTE + "Write-call granularity (torn writes are C12's subject). The protocol model is tied to the code by the prefix oracle, not by a trace proof.",
             "technique": "Lean 4 proof over the write-order protocol + translated mask arithmetic; prefix reconstruction of real write logs"},
+    "C13": {"text": "Theorems for every table content and start cluster: the chain follower (the library's only unbounded loop) terminates, yields at most len+1 "
+                    "clusters, and ends in the chain or a PyFATException; the directory scan is total with library errors only; decoders total. Exception classes "
+                    "of the glue decided by structure-aware mutants on the real code under a deterministic work counter.",
+            "note": _NOTE + "'Memory without bound' is covered only through the bound on the follower's yield; CPython recursion limits are not modelled (eager "
+                    "loading is outside the property: default lazy loading).",
+            "technique": "Lean 4 termination/totality proof over arbitrary inputs + structure-aware mutation of images"},
     "C15": {"text": "Theorems: long-name round trip for every length; created entry found and earlier entries unchanged (scan∘serialise = id); alias conform, fresh. "
                     "Naming decisions of create/makedir compared with Model.Names.newName; real create/exists/listdir/remount oracle over legal names.",
             "note": _NOTE + "CharEnv (upper/encode/decode/isspace) is supplied by CPython per name. Known findings D2 (lead byte 0xE5), D26 (preserve_case=False lookup).",
